@@ -71,6 +71,18 @@ func runUpgrade(dir string, n int, stored *string, states []struct {
 	st, _ := swap.NewBboltStore(db)
 	all := allRoleStates()
 	for _, s := range states {
+		if s.st == "corrupt" {
+			// a record that does not decode (written by another release, or damaged): ListAll fails on it
+			id := swap.NewSwapId()
+			db.Update(func(tx *bbolt.Tx) error {
+				b := tx.Bucket([]byte("swaps"))
+				if b == nil {
+					return nil
+				}
+				return b.Put([]byte(id.String()), []byte(`{"swap_id":"not-hex","data":{}}`))
+			})
+			continue
+		}
 		id := swap.NewSwapId()
 		sm := &swap.SwapStateMachine{SwapId: id, Type: all[s.rs].typ, Role: all[s.rs].role, Current: swap.StateType(s.st),
 			Data: swap.NewSwapData(id, selfNode, peerNode)}
@@ -152,6 +164,12 @@ func genUpgrade(r *rng) (*string, []struct {
 			st string
 		}{k, s})
 	}
+	if r.intn(5) == 0 {
+		sts = append(sts, struct {
+			rs int
+			st string
+		}{0, "corrupt"})
+	}
 	return stored, sts
 }
 
@@ -226,8 +244,12 @@ func init() {
 				res.Distinct++
 			}
 			res.sample(op + " => " + out)
-			allTerm := true
+			allTerm, corrupt := true, false
 			for _, s := range sts {
+				if s.st == "corrupt" {
+					corrupt = true
+					continue
+				}
 				if !terminal[s.st] {
 					allTerm = false
 				}
@@ -238,6 +260,10 @@ func init() {
 			switch {
 			case !same:
 				res.addFinding("C29/swaps-bucket-written", "SafeUpgrade changed the swaps bucket", op)
+			case !isCur && corrupt && !strings.HasPrefix(out, "err") || !isCur && corrupt && strings.Contains(out, "version-"):
+				res.addFinding("C29/upgrade-although-active-swaps-unknown", "a record of the swaps bucket does not decode (whether a swap is active cannot be told) but result "+out, op)
+			case !isCur && corrupt:
+				res.Histogram["undecodable record: refused"]++
 			case isCur && out != "ok "+hexs(cur):
 				res.addFinding("C29/same-version-not-accepted", "same version but result "+out, op)
 			case !isCur && allTerm && out != "ok "+hexs(cur):
